@@ -110,7 +110,7 @@ func genDescription(t *rapid.T, pool []string, serveBias bool) Case {
 			if len(c.Ops) >= 6 {
 				break
 			}
-			op := Op{Method: m, Path: tpl}
+			op := Op{Method: m, Path: tpl, Deprecated: rapid.IntRange(0, 4).Draw(t, "deprecated") == 0}
 			switch m {
 			case "put", "post", "patch":
 				op.Body = rapid.IntRange(0, 9).Draw(t, "body") < 8
@@ -240,7 +240,11 @@ func editOps(t *rapid.T, kind string, c *Case) {
 			o := c.Ops[rapid.IntRange(0, len(c.Ops)-1).Draw(t, "near")]
 			base = RegOp{o.Method, o.Path}
 		}
-		switch rapid.IntRange(0, 4).Draw(t, "foreignop") {
+		switch rapid.IntRange(0, 6).Draw(t, "foreignop") {
+		case 5: // a method the description language does not have, or a misspelt one
+			return RegOp{rapid.SampledFrom([]string{"trace", "connect", "pots", "query"}).Draw(t, "odd-method"), base.Path}
+		case 6:
+			return RegOp{"TRACE", "/zz"}
 		case 0:
 			return RegOp{"PATCH", "/zz"}
 		case 1:
@@ -404,6 +408,9 @@ func Classify(c Case) (bool, []string) {
 		labels["base path spelled with duplicate slashes or a '.' segment"] = true
 	}
 	for _, op := range c.Ops {
+		if op.Deprecated {
+			labels["operation marked deprecated"] = true
+		}
 		if op.Method == "options" && op.Body {
 			labels["OPTIONS operation with a payload"] = true
 		}
